@@ -41,6 +41,9 @@ func (x *Exec) execInstr(fr *Frame, st *State, ins ssa.Instruction) {
 			return
 		}
 		x.store(st, et, p, x.vc.zero(et))
+		if !allocEscapes(t) {
+			x.liveObjs = append(x.liveObjs, liveObj{ptr: p, typ: et, owner: fr.fn, alloc: t})
+		}
 	case *ssa.Store:
 		v := x.val(fr, st, t.Val)
 		x.storeTo(fr, st, t.Addr, t.Val.Type(), v)
